@@ -10,7 +10,8 @@ CL = "whoosh.collectors"
 REMOVE_FALLBACK = """
 # bounded stand-in (class B) for TopCollector.remove when its body leaves the verified subset: EXHAUSTIVE over
 # every insertion order of n <= 7 distinct scores and every victim: after remove() the list must hold exactly the
-# other elements, satisfy the heapq invariant, and minscore must be the minimum
+# other elements, satisfy the heapq invariant, and minscore must be a sound admission threshold (0 unless the heap is
+# full, and then at most the weakest kept score)
 import sys, itertools
 from whoosh.collectors import TopCollector
 for n in range(1, 8):
@@ -23,7 +24,7 @@ for n in range(1, 8):
             it = tc.items
             exp = sorted((float(sc), -d) for d, sc in enumerate(perm) if d != victim)
             heap_ok = all(it[(i - 1) // 2] <= it[i] for i in range(1, len(it)))
-            ms_ok = tc.minscore == (min(it)[0] if it else 0)
+            ms_ok = tc.minscore == 0 or (len(it) >= tc.limit and tc.minscore <= min(it)[0])
             if sorted(it) != exp or not heap_ok or not ms_ok:
                 print("after collecting scores %r and remove(%d): items=%r heap_ok=%s minscore=%r" % (perm, victim, it, heap_ok, tc.minscore)); sys.exit(1)
 sys.exit(0)
@@ -43,7 +44,8 @@ def register(R, tier="quick"):
 
     def post_remove(I, env):
         # every element except the removed key survives, nothing is invented, heap invariant re-established,
-        # minscore is the new minimum (0 for an empty heap)
+        # minscore is a sound admission threshold afterwards (C05: a document may only be pruned when it cannot enter
+        # the top N: 0 while the heap has room, at most the weakest kept score when it is full)
         self_, old = env["self"], I.old_env["self"]
         h, h0 = self_.fields["items"], old.fields["items"]
         neg = -env["global_docnum"]
@@ -51,11 +53,12 @@ def register(R, tier="quick"):
         same = z3.ForAll([s, d], h.mem(s, d) == z3.And(h0.mem(s, d), d != neg))
         present = z3.Exists([s], h0.mem(s, neg))
         return [z3.Implies(present, h.is_heap),
-                z3.Implies(present, self_.fields["minscore"] == z3.If(h.n > 0, h.sc(0), 0)),
+                z3.Implies(present, _sound(h, self_.fields["limit"], self_.fields["minscore"])),
                 z3.Implies(z3.Not(present), z3.And(h.n == h0.n, self_.fields["minscore"] == old.fields["minscore"])),
                 h.wf(), same]
     R.contract(CL + ":TopCollector.remove", props=["C14", "C05"],
                setup=lambda I: {"self": mk(I), "global_docnum": z3.Int("global_docnum")},
+               requires=["self.limit >= 1"],   # Searcher.search rejects limit < 1; limit=None uses UnlimitedCollector
                ensures=[lambda I, env: post_remove(I, env)[0], lambda I, env: post_remove(I, env)[1],
                         lambda I, env: post_remove(I, env)[2], lambda I, env: post_remove(I, env)[3],
                         lambda I, env: post_remove(I, env)[4]],
@@ -64,7 +67,7 @@ def register(R, tier="quick"):
                                                    lambda I, env: _unchanged(I, env),
                                                    lambda I, env: _none_before(I, env)])},
                canaries=[Canary("no-heapify", "heapify(items)", "pass"),
-                         Canary("minscore-not-updated", "self.minscore = items[0][0] if items else 0", "pass")],
+                         Canary("threshold-from-partial-heap", "if len(items) >= self.limit:", "if items:")],
                native_fallback=REMOVE_FALLBACK,
                note="collapse support: removing a superseded document keeps exactly the other elements, restores the "
                     "heap invariant and recomputes the admission threshold")
@@ -82,18 +85,25 @@ def register(R, tier="quick"):
         unchanged = z3.ForAll([s, d], h.mem(s, d) == h0.mem(s, d))
         return z3.And(h.is_heap, h.wf(), self_.fields["total"] == old.fields["total"] + 1,
                       z3.If(h0.n < lim, z3.And(grew, h.n == h0.n + 1),
-                            z3.If(sc > h0.sc(0), z3.And(replaced, h.n == h0.n, self_.fields["minscore"] == h.sc(0)),
-                                  z3.And(unchanged, h.n == h0.n))))
+                            z3.If(sc > h0.sc(0), z3.And(replaced, h.n == h0.n),
+                                  z3.And(unchanged, h.n == h0.n))),
+                      _sound(h, lim, self_.fields["minscore"]))
     R.contract(CL + ":TopCollector._collect", props=["C05", "C14"],
                setup=lambda I: {"self": mk(I), "global_docnum": z3.Int("global_docnum"), "score": z3.Real("score")},
                requires=["self.limit >= 1", "self.items.n <= self.limit",
+                         lambda I, env: _sound(env["self"].fields["items"], env["self"].fields["limit"], env["self"].fields["minscore"]),
                          lambda I, env: _newkey(I, env)],
                ensures=[post_collect],
                canaries=[Canary("admits-ties", "elif score > items[0][0]:", "elif score >= items[0][0]:"),
-                         Canary("minscore-stale", "self.minscore = items[0][0]", "pass")],
+                         Canary("threshold-too-high", "self.minscore = items[0][0]", "self.minscore = score")],
                note="top-N heap: below the limit every document is added; at the limit a document enters iff its score "
                     "is strictly greater than the current minimum (later documents lose ties), evicting exactly that "
-                    "minimum; minscore is the new minimum")
+                    "minimum; minscore stays a sound pruning threshold (0 while the heap has room, never above the weakest "
+                    "kept score)")
+
+
+def _sound(h, lim, ms):
+    return z3.Or(ms == 0, z3.And(h.n >= lim, ms <= h.sc(0)))
 
 
 def _unchanged(I, env):
